@@ -145,12 +145,19 @@ fn check_pair(e: &mut Eng, a: (i32, i32), b: (i32, i32), vals: &[(f32, f32)]) {
         }
     }
     // ordering
-    for &(x, y) in vals.iter().take(if differ { 2 } else { vals.len() }) {
+    // (with differing units a panic must not depend on the values: two value pairs, plus every pair
+    // of *equal* values - where a comparison could be answered without looking at the units)
+    for (vi, &(x, y)) in vals.iter().enumerate() {
+        if differ && vi >= 2 && x != y {
+            continue;
+        }
         let (qa, qb) = (Quantity::new(x, ua), Quantity::new(y, ub));
-        let forms: [(&str, Box<dyn Fn() -> Option<i8>>); 3] = [
+        let forms: [(&str, Box<dyn Fn() -> Option<i8>>); 5] = [
             ("partial_cmp", Box::new(move || qa.partial_cmp(&qb).map(|o| o as i8))),
             ("<", Box::new(move || Some((qa < qb) as i8))),
             (">", Box::new(move || Some((qa > qb) as i8))),
+            ("<=", Box::new(move || Some((qa <= qb) as i8))),
+            (">=", Box::new(move || Some((qa >= qb) as i8))),
         ];
         for (name, f) in forms.iter() {
             e.executions += 1;
@@ -160,7 +167,9 @@ fn check_pair(e: &mut Eng, a: (i32, i32), b: (i32, i32), vals: &[(f32, f32)]) {
             let want = match *name {
                 "partial_cmp" => x.partial_cmp(&y).map(|o| o as i8),
                 "<" => Some((x < y) as i8),
-                _ => Some((x > y) as i8),
+                ">" => Some((x > y) as i8),
+                "<=" => Some((x <= y) as i8),
+                _ => Some((x >= y) as i8),
             };
             match (r, must_panic) {
                 (Err(_), true) => {}
@@ -567,7 +576,7 @@ pub fn run(ctx: &Ctx) -> Vec<Eng> {
     let fewvals = vec![(1.5f32, -0.1f32), (f32::MAX, f32::MAX), (0.0, -0.0), (7e6, 1e-40)];
     let mut e1 = Eng::new(
         "c01-grid-pairs",
-        "all ordered pairs of the 49 grid units x every Quantity operator form (+ - * / and assign forms, partial_cmp < >) x all 144 ordered pairs of a 12-value f32 alphabet (incl. +-0, MAX, MIN_POSITIVE, a subnormal); same operators on bare units; equality helpers; oracle: result unit = exponent arithmetic (read from the representation, independent of the crate's equality code), value bit-equal to the raw f32 operator, panic <=> add/sub/ordering with differing units; non-trivial = the two units differ",
+        "all ordered pairs of the 49 grid units x every Quantity operator form (+ - * / and assign forms, partial_cmp < > <= >=) x all 144 ordered pairs of a 12-value f32 alphabet (incl. +-0, MAX, MIN_POSITIVE, a subnormal); same operators on bare units; equality helpers; oracle: result unit = exponent arithmetic (read from the representation, independent of the crate's equality code), value bit-equal to the raw f32 operator, panic <=> add/sub/ordering with differing units; non-trivial = the two units differ",
         "49 x 49 unit pairs",
     );
     e1.notes.push(unit_mode());
